@@ -521,9 +521,13 @@ pub fn mutate(rng: &mut Rng, gp: &GenProblem) -> (String, &'static str) {
             let parts: Vec<&str> = base.splitn(2, "# guesses\n").collect();
             if parts.len() == 2 {
                 let mut g: Vec<&str> = parts[1].split('\n').collect();
-                if !g.is_empty() {
-                    g.remove(rng.below(g.len()));
+                // drop a line that really is a guess (not a blank one), so that the text omits a guess
+                // for a declared entity and must be rejected
+                let real: Vec<usize> = g.iter().enumerate().filter(|(_, l)| l.contains("roughly")).map(|(k, _)| k).collect();
+                if real.is_empty() {
+                    return (base, "none");
                 }
+                g.remove(*rng.pick(&real));
                 (format!("{}# guesses\n{}", parts[0], g.join("\n")), "missing-guess")
             } else {
                 (base, "none")
